@@ -1594,3 +1594,27 @@ CASES += [
          old="""    pub const U64_LARGEST: u128 = 18_446_744_073_709_551_557;""",
          new="""    pub const U64_LARGEST: u128 = 18_446_744_073_709_551_591;"""),
 ]
+
+# ------------------------------------------------------------------ HS6 a formula's hasher is built from its own clauses
+CASES += [
+    dict(name="hs6-hasher-carried-over", file=CNF, rule="HS", props=["C15"], expect="condition:HS6",
+         old="""        Cnf::new(&new_cnf)""",
+         new="""        let num_vars = self.num_vars;
+        Cnf {
+            hasher: self.hasher.clone(),
+            clauses: new_cnf,
+            num_vars,
+        }"""),
+    dict(name="hs6-hoisted-hasher-ok", file=CNF, rule="HS", props=["C15"], expect=None,
+         old="""        Cnf {
+            hasher: CnfHasher::new(&clauses, num_vars),
+            clauses,
+            num_vars,
+        }""",
+         new="""        let hasher = CnfHasher::new(&clauses, num_vars);
+        Cnf {
+            clauses,
+            num_vars,
+            hasher,
+        }"""),
+]
